@@ -133,6 +133,23 @@ def path_reversed_of_a_path_with_warm_caches_is_a_consistent_path(c, kinds):
     c.ensures('original-untouched', all(a is b for a, b in zip(list(c.get(path, '_segments')), segs)) and len(list(c.get(path, '_segments'))) == len(segs))
 
 
+@contract('C09', 'path.Path.cropped', params=[{'closed': cl, '_no_bounded': True} for cl in (False, True)], level='per-shape', budget=120)
+def path_cropped_returns_a_consistent_path_whatever_was_cached(c, closed):
+    """the crop of a path whose caches are warm is a Path in a consistent state (C16's invariant)"""
+    from contracts.c16 import check_inv
+    path, segs, V = _polyline(c, 3, closed)
+    c.callm(path, '_calc_lengths')
+    T0, T1 = c.real('T0'), c.real('T1')
+    c.assume(ops.And(ops.lt(0, T0), ops.lt(T0, T1), ops.lt(T1, 1)))
+    out = c.outcome(lambda: c.callm(path, 'cropped', T0, T1))
+    if out.kind != 'ok':
+        c.ensures('returns', False, exception=out.exc)
+        return
+    r = out.value
+    c.ensures('a-new-Path-object', r is not path)
+    check_inv(c, r, list(c.get(r, '_segments')), 'cropped')
+
+
 def _polyline(c, n, closed):
     """continuous polyline; segment lengths enter through the call-site contract of Line.length
     (C06): positive numbers"""
